@@ -12,21 +12,59 @@ Definition close12 (a b : Q) : bool := Qle_bool (Qabs (a - b)) (1 # 100000000000
          [1; n300; n100; misses]                                          taiko
          [2; fruits; droplets; tiny; tiny misses; misses]                 catch
          [3; classic; n320; n300; n200; n100; n50; misses]                mania *)
-Definition exact_acc (row : list Z) : option Q :=
+Definition exact_nd (row : list Z) : option (Z * Z) :=
   match row with
   | [0; tag; m1; m2; n300; n100; n50; misses; ends; large; small] =>
       let o := if tag =? 0 then OStable else if tag =? 1 then OWithSliderAcc m1 m2 else OWithoutSliderAcc m1 m2 in
-      Some (acc_of (osu_acc_nd o n300 n100 n50 misses ends large small))
-  | [1; n300; n100; misses] => Some (acc_of (taiko_acc_nd n300 n100 misses))
-  | [2; f; d; t; tm; m] => Some (acc_of (catch_acc_nd f d t tm m))
+      Some (osu_acc_nd o n300 n100 n50 misses ends large small)
+  | [1; n300; n100; misses] => Some (taiko_acc_nd n300 n100 misses)
+  | [2; f; d; t; tm; m] => Some (catch_acc_nd f d t tm m)
   | [3; classic; n320; n300; n200; n100; n50; misses] =>
-      Some (acc_of (mania_acc_nd (negb (classic =? 0)) n320 n300 n200 n100 n50 misses))
+      Some (mania_acc_nd (negb (classic =? 0)) n320 n300 n200 n100 n50 misses)
   | _ => None
   end.
+Definition exact_acc (row : list Z) : option Q := option_map acc_of (exact_nd row).
 
+(* `if denominator == 0 { 0.0 } else { f64::from(numerator) / f64::from(denominator) }` *)
+Definition facc (nd : Z * Z) : float :=
+  if (snd nd =? 0)%Z then 0%float else (of_Z (fst nd) / of_Z (snd nd))%float.
+
+
+(* OsuScoreState::accuracy as the code computes it: integer parts converted exactly, the tick parts
+   weighted with the binary64 constants 0.6 and 0.2, `denominator.eq(0.0)` = |d - 0| <= f64::EPSILON *)
+Definition W06 : float := of_bits 4603579539098121011.    (* 0.6 *)
+Definition W02 : float := of_bits 4596373779694328218.    (* 0.2 *)
+Definition F_EPS : float := of_bits 4372995238176751616.  (* 2^-52 *)
+Definition osu_facc_nd (o : osu_origin) (n300 n100 n50 misses ends large small : Z) : float * float :=
+  let num := of_Z (6 * n300 + 2 * n100 + n50) in
+  let den := of_Z (6 * (n300 + n100 + n50 + misses)) in
+  match o with
+  | OStable => (num, den)
+  | OWithSliderAcc ml me =>
+      ((num + (of_Z (3 * Z.min ends me) + W06 * of_Z (Z.min large ml)))%float,
+       (den + (of_Z (3 * me) + W06 * of_Z ml))%float)
+  | OWithoutSliderAcc ml ms =>
+      ((num + (W06 * of_Z (Z.min large ml) + W02 * of_Z (Z.min small ms)))%float,
+       (den + (W06 * of_Z ml + W02 * of_Z ms))%float)
+  end.
+Definition fquot (nd : float * float) : float :=
+  if PrimFloat.leb (PrimFloat.abs (snd nd - 0)%float) F_EPS then 0%float else (fst nd / snd nd)%float.
+
+Definition float_acc (row : list Z) : option float :=
+  match row with
+  | [0; tag; m1; m2; n300; n100; n50; misses; ends; large; small] =>
+      let o := if tag =? 0 then OStable else if tag =? 1 then OWithSliderAcc m1 m2 else OWithoutSliderAcc m1 m2 in
+      Some (fquot (osu_facc_nd o n300 n100 n50 misses ends large small))
+  | _ => option_map facc (exact_nd row)
+  end.
+
+(* 1 = farther than 1e-12 from the exact accuracy, 2 = malformed row, 3 = not bit-identical to the
+   float model *)
 Definition acc_bad (cases : list (N * list Z * Z)) : list (N * N) :=
   flat_map (fun c => let '(id, row, w) := c in
-                     match exact_acc row, Q_of_float (of_bits w) with
-                     | Some e, Some g => if close12 e g then [] else [(id, 1%N)]
-                     | _, _ => [(id, 2%N)]
+                     match exact_nd row, float_acc row, Q_of_float (of_bits w) with
+                     | Some nd, Some f, Some g =>
+                         (if close12 (acc_of nd) g then [] else [(id, 1%N)]) ++
+                         (if to_bits f =? w then [] else [(id, 3%N)])
+                     | _, _, _ => [(id, 2%N)]
                      end) cases.
